@@ -30,6 +30,7 @@
 #include "torrent/bitfield.h"
 #include "torrent/data/file.h"
 #include "torrent/data/file_list.h"
+#include "torrent/data/transfer_list.h"
 #include "torrent/download_info.h"
 #include "torrent/exceptions.h"
 #include "torrent/object.h"
@@ -41,13 +42,16 @@ using namespace ltv;
 // T case (two lifetimes, real save):
 //   T <piece_len> <len> <len> ... | <pieces missing at start: i,i or -> | <history ops> | <post-crash: per-file perturbation ...> [lose=i,i]
 //   lifetime 1: files written (listed pieces corrupt on disk), download_add, open, full hash_check; then the ops:
-//       start | stop | dl (a scripted seeder serves every request until nothing is missing) | adv<minutes> |
-//       close | reopen (open + full hash_check) | save (resume_save_progress + resume_save_uncertain_pieces)
+//       start | stop | dl (a scripted seeder serves every request until nothing is missing) | dl=i,i (serves only these
+//       pieces) | dlhold=i,i (same, connection stays up: other requested pieces remain in flight) | drop | adv<minutes> |
+//       close | reopen (open + full hash_check) | openonly (open, hash_check started but not driven) | finishcheck |
+//       save (resume_save_progress + resume_save_uncertain_pieces, at any moment while open)
 //     then the torrent is removed ("crash").
 //   post-crash per file:  =  untouched   D  deleted   T<n>  truncated   W  rewritten in place, same size, mtime + 7 s
 //     lose=i,i : the bytes of these pieces are overwritten, file sizes and mtimes stay as they were
 //   lifetime 2: 10 s later: download_add, open, resume_load_progress of the saved object, hash_check(false).
-// Output:  saved=<per file R|0|1|2|A, or -> sbf=<V<n>|S<hex>|-> unc=<i,i|none> load_ranges=<membership> bits=<after check>
+// Output:  saved=<per file R|0|1|2|A, or -> sbf=<V<n>|S<hex>|-> unc=<i,i|none> cl=<completed-list length at the last save>
+//          load_ranges=<membership> bits=<after check>
 //          ||  ssl=<valid on disk by OpenSSL> sound=<0|1>
 static std::vector<uint32_t> parse_list(const std::string& s) {
   std::vector<uint32_t> v;
@@ -62,46 +66,62 @@ static std::vector<uint32_t> parse_list(const std::string& s) {
   return v;
 }
 
-static void serve_until_done(Session& S, Torrent* T) {
-  WirePeer P;
+// a scripted seeder: answers the library's requests for the pieces in `only` (all pieces when empty) until those are
+// complete; with hold the connection stays up afterwards (the other requested pieces stay in flight in TransferList)
+static std::unique_ptr<WirePeer> g_held;
+
+static void serve(Session& S, Torrent* T, const std::vector<uint32_t>& only, bool hold) {
+  g_held.reset();
+  auto Pp = std::make_unique<WirePeer>();
+  WirePeer& P = *Pp;
   static unsigned ipn = 0;
   ipn++;
   std::string ip = "127.0." + std::to_string(1 + (ipn / 200) % 200) + "." + std::to_string(2 + ipn % 200);
   if (!P.connect_to(S.listen_port(), ip.c_str())) throw std::runtime_error("peer connect");
   uint32_t np = T->piece_count();
-  static unsigned conn_no = 0;
-  conn_no++;
   char idbuf[21];
-  snprintf(idbuf, sizeof idbuf, "-LV0001-c10%09u", conn_no);
-  P.send_bytes(WirePeer::handshake(T->info_hash, std::string(idbuf, 20)) + WirePeer::bitfield(std::string(np, '1')));
+  snprintf(idbuf, sizeof idbuf, "-LV0001-c10%09u", ipn);
+  // the seeder advertises only the pieces it is going to serve, so the library asks for exactly those
+  std::string adv(np, only.empty() ? '1' : '0');
+  for (uint32_t i : only) if (i < np) adv[i] = '1';
+  P.send_bytes(WirePeer::handshake(T->info_hash, std::string(idbuf, 20)) + WirePeer::bitfield(adv));
   pump(S, {&P});
   HandshakeIn h;
   if (!P.take_handshake(h)) throw std::runtime_error("no handshake from the library");
   P.send_bytes(WirePeer::unchoke());
-  for (int round = 0; round < 2000; round++) {
+  auto wanted_done = [&]() {
+    const torrent::Bitfield* bf = T->dl.file_list()->bitfield();
+    if (only.empty()) return bf->is_all_set();
+    for (uint32_t i : only) if (i < np && !bf->get(i)) return false;
+    return true;
+  };
+  for (int round = 0; round < 400 && !wanted_done(); round++) {
     pump(S, {&P});
     WireMsg m;
     bool any = false;
     while (P.next_message(m)) {
-      if (getenv("C10_DEBUG")) fprintf(stderr, "[c10] msg id=%d len=%zu\n", m.id, m.body.size());
       if (m.id == WirePeer::REQUEST && m.body.size() == 12) {
-        P.send_bytes(WirePeer::piece(m.u32(0), m.u32(4), T->range(m.u32(0), m.u32(4), m.u32(8))));
-        any = true;
+        uint32_t idx = m.u32(0);
+        if (only.empty() || std::find(only.begin(), only.end(), idx) != only.end()) {
+          P.send_bytes(WirePeer::piece(idx, m.u32(4), T->range(idx, m.u32(4), m.u32(8))));
+          any = true;
+        }
       }
     }
-    torrent::Download d = T->dl;
-    S.settle([d]() { return true; }, 1);
+    pump(S, {&P});
     if (!any) {
-      // nothing requested: done, or hashing still in flight
-      bool done = T->dl.file_list()->bitfield()->is_all_set();
-      if (done || P.eof) break;
-      S.settle([d]() { return d.file_list()->bitfield()->is_all_set(); }, 200);
-      if (T->dl.file_list()->bitfield()->is_all_set()) break;
-      if (round > 50) break;
+      S.settle([&]() { return wanted_done(); }, 100);
+      if (P.eof) break;
     }
   }
-  P.close_all();
-  S.step();
+  if (hold) {
+    // now offer every other piece too and leave the requests for them unanswered: pieces in flight
+    std::string haves;
+    for (uint32_t i = 0; i < np; i++) if (adv[i] == '0') haves += WirePeer::have(i);
+    if (!haves.empty()) P.send_bytes(haves);
+    for (int k = 0; k < 40 && T->dl.transfer_list()->size() == 0 && !haves.empty(); k++) { P.send_bytes(WirePeer::keepalive()); pump(S, {&P}); S.advance_us(100000); }
+    g_held = std::move(Pp);
+  } else { P.close_all(); S.step(); }
 }
 
 static std::string run_case(Session& S, const std::string& line, unsigned serial) {
@@ -130,10 +150,19 @@ static std::string run_case(Session& S, const std::string& line, unsigned serial
   if (!T->dl.is_hash_checked()) return "BADCASE lifetime1";
   torrent::Object resume = torrent::Object::create_map();
   bool have_save = false;
+  size_t cl_at_save = 0, tl_at_save = 0;
   for (auto& o : ops) {
     if (o == "start") { if (T->dl.info()->is_open() && T->dl.is_hash_checked() && !T->dl.info()->is_active()) S.start(T); }
     else if (o == "stop") S.stop(T);
-    else if (o == "dl") { if (T->dl.info()->is_active() && !T->dl.file_list()->bitfield()->is_all_set()) serve_until_done(S, T); }
+    else if (o == "dl") { if (T->dl.info()->is_active() && !T->dl.file_list()->bitfield()->is_all_set()) serve(S, T, {}, false); }
+    else if (o.rfind("dl=", 0) == 0) { if (T->dl.info()->is_active()) serve(S, T, parse_list(o.substr(3)), false); }
+    else if (o.rfind("dlhold=", 0) == 0) { if (T->dl.info()->is_active()) serve(S, T, parse_list(o.substr(7)), true); }
+    else if (o == "drop") { if (g_held) { g_held->close_all(); g_held.reset(); S.step(); } }
+    else if (o == "openonly") { if (!T->dl.info()->is_open()) { T->dl.open(0); T->dl.hash_check(false); } }     // check started, not driven
+    else if (o == "finishcheck") {
+      torrent::Download d = T->dl;
+      if (T->dl.info()->is_open() && !T->dl.is_hash_checked() && !S.settle([d]() { return d.is_hash_checked(); }, 20000)) return "BADCASE finishcheck";
+    }
     else if (o.rfind("adv", 0) == 0) S.advance_us((int64_t)std::stoll(o.substr(3)) * 60 * 1000000ll);
     else if (o == "close") { S.stop(T); T->dl.close(0); S.step(); }
     else if (o == "reopen") {
@@ -144,41 +173,45 @@ static std::string run_case(Session& S, const std::string& line, unsigned serial
         if (!S.settle([d]() { return d.is_hash_checked(); }, 20000)) return "BADCASE reopen";
       }
     } else if (o == "save") {
-      if (T->dl.info()->is_open() && T->dl.is_hash_checked()) {
+      if (T->dl.info()->is_open()) {
+        // what a client does at any moment: both calls; resume_save_progress itself declines while hashing
         torrent::resume_save_progress(T->dl, resume);
         torrent::resume_save_uncertain_pieces(T->dl, resume);
         have_save = true;
+        cl_at_save = T->dl.transfer_list()->completed_list().size();
+        tl_at_save = std::max<size_t>(tl_at_save, T->dl.transfer_list()->size());   // most pieces in flight at any save
       }
     } else return "BADCASE op";
   }
+  g_held.reset();
+  S.step();
   std::string root = T->root, content = T->content;
   // what was saved
   std::string saved = "-", sbf = "-", unc = "none";
   std::vector<int64_t> saved_m;
   if (have_save && resume.has_key_list("files")) {
     saved.clear();
-    size_t k = 0;
     for (auto& f : resume.get_key_list("files")) {
       int64_t m = f.get_key_value("mtime");
-      saved_m.push_back(m);
       saved += m == ~int64_t{0} ? '0' : m == ~int64_t{1} ? '1' : m == ~int64_t{2} ? '2' : m == ~int64_t{3} ? 'A' : 'R';
-      k++;
     }
     if (resume.has_key_value("bitfield")) sbf = "V" + std::to_string(resume.get_key_value("bitfield"));
     else if (resume.has_key_string("bitfield")) sbf = "S" + hex(resume.get_key_string("bitfield"));
-    if (resume.has_key_string("uncertain_pieces")) {
-      const std::string& u = resume.get_key_string("uncertain_pieces");
-      unc.clear();
-      for (size_t i = 0; i + 4 <= u.size(); i += 4) {
-        uint32_t v = (uint32_t((unsigned char)u[i]) << 24) | (uint32_t((unsigned char)u[i + 1]) << 16) |
-                     (uint32_t((unsigned char)u[i + 2]) << 8) | (unsigned char)u[i + 3];
-        if (!unc.empty()) unc += ",";
-        unc += std::to_string(v);
-      }
-      if (unc.empty()) unc = "empty";
-      if (!resume.has_key_value("uncertain_pieces.timestamp")) unc += "!nots";
-    }
   }
+  if (have_save && resume.has_key_string("uncertain_pieces")) {
+    const std::string& u = resume.get_key_string("uncertain_pieces");
+    unc.clear();
+    for (size_t i = 0; i + 4 <= u.size(); i += 4) {
+      uint32_t v = (uint32_t((unsigned char)u[i]) << 24) | (uint32_t((unsigned char)u[i + 1]) << 16) |
+                   (uint32_t((unsigned char)u[i + 2]) << 8) | (unsigned char)u[i + 3];
+      if (!unc.empty()) unc += ",";
+      unc += std::to_string(v);
+    }
+    if (unc.empty()) unc = "empty";
+    if (!resume.has_key_value("uncertain_pieces.timestamp")) unc += "!nots";
+  }
+  std::string cl = have_save ? std::to_string(cl_at_save) : std::string("-");
+  std::string inflight = have_save ? std::to_string(tl_at_save) : std::string("-");
   std::string info = T->info_bytes;
   std::vector<std::string> hashes = T->piece_hashes;
   uint32_t np = T->piece_count(), pl = spec.piece_length;
@@ -283,8 +316,8 @@ static std::string run_case(Session& S, const std::string& line, unsigned serial
   S.step();
   std::error_code ec;
   std::filesystem::remove_all(std::filesystem::path(root).parent_path(), ec);
-  return "saved=" + saved + " sbf=" + sbf + " unc=" + unc + " load_ranges=" + ranges + " bits=" + bits + " || ssl=" + ssl +
-         " sound=" + (sound ? "1" : "0") + (err.empty() ? "" : " load_exception=" + err);
+  return "saved=" + saved + " sbf=" + sbf + " unc=" + unc + " cl=" + cl + " load_ranges=" + ranges + " bits=" + bits + " || ssl=" + ssl +
+         " sound=" + (sound ? "1" : "0") + " inflight=" + inflight + (err.empty() ? "" : " load_exception=" + err);
 }
 
 // ------------------------------------------------------------------------------------------
